@@ -815,3 +815,50 @@ mod tests {
   }
 }
 
+
+// Verification hooks (no behaviour change); compiled only with --cfg ellbur_totalmapper_verif
+#[cfg(ellbur_totalmapper_verif)]
+pub struct VerifSnapshot {
+  pub input_pressed_keys: Vec<KeyCode>,
+  pub active_mappings: Vec<Mapping>,
+  pub pass_through_keys: Vec<KeyCode>,
+  pub mapped_output_keys: Vec<KeyCode>,
+  pub mapped_absorbed_keys: Vec<KeyCode>,
+  pub absorbing_trigger: Option<KeyCode>,
+  pub repeating_trigger: Option<KeyCode>
+}
+
+#[cfg(ellbur_totalmapper_verif)]
+impl Mapper {
+  pub fn verif_snapshot(&self) -> VerifSnapshot {
+    VerifSnapshot {
+      input_pressed_keys: self.state.input_pressed_keys.clone(),
+      active_mappings: self.state.active_mappings.clone(),
+      pass_through_keys: self.state.pass_through_keys.clone(),
+      mapped_output_keys: self.state.mapped_output_keys.clone(),
+      mapped_absorbed_keys: self.state.mapped_absorbed_keys.clone(),
+      absorbing_trigger: self.state.absorbing_trigger.clone(),
+      repeating_trigger: self.state.repeating_trigger.clone()
+    }
+  }
+  
+  pub fn verif_restore(&mut self, s: &VerifSnapshot) {
+    self.state = State {
+      input_pressed_keys: s.input_pressed_keys.clone(),
+      active_mappings: s.active_mappings.clone(),
+      pass_through_keys: s.pass_through_keys.clone(),
+      mapped_output_keys: s.mapped_output_keys.clone(),
+      mapped_absorbed_keys: s.mapped_absorbed_keys.clone(),
+      absorbing_trigger: s.absorbing_trigger.clone(),
+      repeating_trigger: s.repeating_trigger.clone()
+    };
+  }
+  
+  pub fn verif_fingerprint(&self) -> String {
+    format!("{:?}", self.state)
+  }
+  
+  pub fn verif_is_action_key(k: &KeyCode) -> bool {
+    is_action_key(k)
+  }
+}
